@@ -235,7 +235,9 @@ fn gen_eval(rng: &mut Rng, img: &RefImage, pc: u16, stack: bool, classes: &mut V
                 expect: Expect::Refuse("malformed:directive"),
             },
             _ => EvalCmd {
-                text: rng.s(&["ld r0 nolabel", "lea r1 Alpha", "st r2 ALPHA", "jsr nowhere"]).into(),
+                // (every form that takes a label, each with a name nothing defines)
+                text: rng.s(&["ld r0 nolabel", "lea r1 Alpha", "st r2 ALPHA", "jsr nowhere", "ldi r3 nolabel", "sti r4 nowhere", "sti r0, Alpha", "ldi r7 ALPHA",
+                    "br nolabel", "brnzp nowhere", "brz Alpha", "brn nolabel", "brp ALPHA", "st r5 nowhere", "lea r6, nolabel", "ld r1 nowhere"]).into(),
                 expect: Expect::Refuse("malformed:undefined_label"),
             },
         },
